@@ -58,7 +58,7 @@ func init() {
 			pol := randPolicy(r, r.Intn(3) == 0)
 			s := c.NewSim(cfg, pol)
 			s.now = T0
-			roots := []string{"r0", "r1", "r2"}[:1+r.Intn(3)]
+			roots := []string{"r0", "r1", "r2", "r3", "r4"}[:1+r.Intn(pick(r, 3, 3, 5))]
 			procs := []string{"w1", "w2", "w3"}
 			// routed promises, some with long, some with short timeouts
 			for _, id := range roots {
@@ -66,7 +66,7 @@ func init() {
 				s.Submit("setup", reqCreate(id, nil, false, to, map[string]string{"resonate:invoke": pick(r, "poll://default/w1", `{"type":"poll","data":{"group":"g","id":"w"}}`, "default")}, "x"))
 			}
 			// awaited leaves with callbacks/subscriptions so that resume/notify tasks appear
-			nleaf := r.Intn(3)
+			nleaf := r.Intn(pick(r, 3, 3, 5))
 			for i := 0; i < nleaf; i++ {
 				leaf := fmt.Sprintf("l%d", i)
 				s.Submit("setup", reqCreate(leaf, nil, false, s.now+pick(r, int64(6), 15, 100000), nil, "y"))
@@ -75,10 +75,40 @@ func init() {
 			s.Drain(1, 100)
 			for i := 0; i < nleaf; i++ {
 				leaf := fmt.Sprintf("l%d", i)
-				s.Submit("setup", reqCallback(leaf, pick(r, roots...), s.now+100000, `"poll://default/w2"`))
+				// a registration may time out before its promise completes: the task it turns into is born overdue
+				s.Submit("setup", reqCallback(leaf, pick(r, roots...), s.now+pick(r, int64(100000), 100000, 4, 12), `"poll://default/w2"`))
 				if r.Intn(2) == 0 {
-					s.Submit("setup", reqSubscription("s", leaf, s.now+100000, `"poll://default/w3"`))
+					s.Submit("setup", reqSubscription("s", leaf, s.now+pick(r, int64(100000), 100000, 4, 12), `"poll://default/w3"`))
 				}
+			}
+			if r.Intn(5) == 0 {
+				// a steady holder: one worker claims the task of a promise that times out at D and renews its lease a little
+				// before every expiry, up to and past D; nobody else interferes. It keeps the task until D.
+				D := s.now + pick(r, int64(60), 100, 150, 250)
+				s.Submit("setup", reqCreate("h0", nil, false, D, map[string]string{"resonate:invoke": "poll://default/w1"}, "x"))
+				ttl := pick(r, 10, 20, 30, 50)
+				every := int64(ttl) - pick(r, int64(1), 2, 5)
+				claimed, last, seen := false, int64(0), 0
+				for s.now < D+10 {
+					for _, d := range parseDispatched(s, seen) {
+						if d.Id == "__invoke:h0" && !claimed {
+							s.Submit("w1", reqClaim(d.Id, d.Counter, "w1", ttl))
+							claimed, last = true, s.now
+						}
+					}
+					seen = len(s.sent)
+					if claimed && s.now-last >= every {
+						s.Submit("w1", reqHeartbeatTasks("w1"))
+						last = s.now
+					}
+					s.Tick(s.now + pick(r, int64(1), 1, 2, 3))
+				}
+				s.Drain(1, 100)
+				if claimed {
+					s.mon.region("steady-holder-to-the-task-timeout")
+				}
+				c.checkMessageClaims(s)
+				return
 			}
 			seen := 0
 			eager := r.Intn(3) == 0
@@ -227,6 +257,21 @@ func init() {
 			procs := []string{"pA", "pB"}
 			steps := 15 + r.Intn(40)
 			crashy := r.Intn(4) == 0
+			if r.Intn(12) == 0 {
+				// one process holding many locks (a worker with a few hundred resources): its heartbeat renews every one of them
+				many := 90 + r.Intn(80)
+				bttl := pick(r, int64(5), 10, 20, 1000)
+				for i := 0; i < many; i++ {
+					s.Submit("bulk", reqAcquire(fmt.Sprintf("bulk%d", i), "e1", "pA", bttl+int64(i%3)))
+					if i%40 == 39 {
+						s.Tick(s.now)
+						s.Drain(0, 200)
+					}
+				}
+				s.Drain(0, 200)
+				res = append(res, fmt.Sprintf("bulk%d", r.Intn(many)), fmt.Sprintf("bulk%d", many-1), "bulk0")
+				s.mon.region("one-process-many-locks")
+			}
 			for i := 0; i < steps; i++ {
 				k := r.Intn(4)
 				for j := 0; j < k; j++ {
